@@ -96,6 +96,9 @@ def gen_case(rng, size=1.0, force=None):
     n_contigs = rng.choice([1, 2, 2, 3])
     with_indels = rng.random() < 0.3
     no_reference = (not with_indels) and rng.random() < 0.15
+    if force.get("no_reference"):
+        # (the draws above are made all the same) base qualities only count without a reference: seed C10-h
+        with_indels, no_reference = False, True
     linked = rng.random() < 0.3
     vcf_samples = ["S1", "S2", "S3"][:rng.choice([1, 1, 2, 3])]
     encoding = "HP" if rng.random() < 0.2 else "PS"
@@ -406,6 +409,8 @@ def gen_case(rng, size=1.0, force=None):
         case["swap"] = {"sample": s, "chrom": c, "ps": p, "i": i, "j": j}
     if not force.get("no_boundary"):
         add_boundary_reads(case)
+    if not force.get("no_overlap"):
+        add_overlapping_mates(case)
     number_reads_per_sample(case, force.get("name_scheme"))
     return case
 
@@ -633,6 +638,117 @@ def add_boundary_reads(case):
                 if partner is not None:
                     case["alns"].append(partner)
     case["boundary_reads"] = n
+
+
+def query_index(start, cigar, p):
+    """index into the query of the base aligned to reference position p (p inside an M/=/X block), else None"""
+    rp, qp = start, 0
+    for op, n in cigar:
+        if op in (0, 7, 8):
+            if rp <= p < rp + n:
+                return qp + (p - rp)
+            rp += n; qp += n
+        elif op in (1, 4):
+            qp += n
+        elif op in (2, 3):
+            rp += n
+    return None
+
+
+def add_overlapping_mates(case):
+    """Round-10 seed C10-h.  For every read group of a VCF sample and every contig: 2-4 read PAIRS whose two mates OVERLAP each
+    other on >= 1 phased heterozygous SNV of that sample (and pairs primary + supplementary record overlapping there), with
+    per-base qualities chosen independently per mate at the variant bases (0, small, equal, very different).  Kinds:
+    'agree-only' (the doubly covered SNV X is the read's only variant), 'agree-minority' (X votes for haplotype h, one further SNV
+    covered by one mate votes for another haplotype), 'agree-support' (all for h), 'conflict' (the mates show DIFFERENT alleles at
+    X: the genuine conflict, dropped by create_read_from_group), 'supp' (primary + supplementary overlap: haplotag's reader never
+    uses the supplementary record).  Only SNVs are covered, so that an allele quality is exactly one base quality without a
+    reference.  `vq` = [[variant index, base quality]] of the record.  Own content-seeded rng: the main stream is unchanged."""
+    import random, zlib
+    rng = random.Random(zlib.crc32(repr(("ovl", sorted(case["contigs"].items()), len(case["alns"]), case["ploidy"])).encode()))
+    ploidy = case["ploidy"]
+    o = case["opts"]
+    no_rg = case["read_groups"] is None
+    n = 0
+    for rg_id, s in (case["read_groups"] or [[None, sm] for sm in case["vcf_samples"][:1]]):
+        if s not in case["phasing"]:
+            continue
+        for chrom, refseq in case["contigs"].items():
+            vs = case["variants"].get(chrom) or []
+            if chrom == "chrE" or chrom not in case["phasing"][s]:
+                continue
+            ph = case["phasing"][s][chrom]
+            haps = ph["haps"]
+            L = len(refseq)
+            phased = [i for i, v in enumerate(vs) if ph["ps"][i] is not None and len({haps[h][i] for h in range(ploidy)}) > 1]
+            cand = [i for i in phased if is_snv(vs[i])]
+            if not cand:
+                continue
+            for _ in range(rng.randrange(2, 5)):
+                kind = rng.choice(["agree-only", "agree-minority", "agree-minority", "agree-minority", "agree-support", "conflict", "supp"])
+                b = rng.choice(cand)
+                x = vs[b]["pos"]
+                h = rng.randrange(ploidy)
+                h2 = rng.choice([j for j in range(ploidy) if j != h])
+                alleles = list(haps[h])
+                # a second SNV of the same phase set right of X, covered by the second record only
+                later = [i for i in cand if i > b and ph["ps"][i] == ph["ps"][b]]
+                y = later[0] if (later and kind in ("agree-minority", "agree-support", "conflict")) else None
+                if y is not None and kind == "agree-minority":
+                    alleles[y] = haps[h2][y]
+                s1 = max(0, x - rng.randrange(20, 70))
+                e1 = min(L, x + rng.randrange(8, 30))
+                s2 = max(0, x - rng.randrange(5, 18))
+                e2 = min(L, (vs[y]["pos"] + rng.randrange(8, 30)) if y is not None else x + rng.randrange(30, 80))
+                if s2 < s1:
+                    s1, s2 = s2, s1
+                alleles2 = list(alleles)
+                if kind in ("conflict", "supp") and rng.random() < (1.0 if kind == "conflict" else 0.5):
+                    alleles2[b] = 1 - alleles2[b]
+                m1 = make_alignment(refseq, vs, alleles, s1, e1)
+                m2 = make_alignment(refseq, vs, alleles2, s2, e2)
+                if m1 is None or m2 is None:
+                    continue
+                if not all(is_snv(vs[i]) for i, _ in m1[3] + m2[3]):
+                    continue
+                if b not in [i for i, _ in m1[3]] or b not in [i for i, _ in m2[3]]:
+                    continue
+                n += 1
+                qname = f"ovl{n}_{s}"
+                qmode = rng.choice(["different", "different", "different", "equal", "first-zero", "second-zero", "second-higher"])
+                recs = []
+                for k, m in enumerate((m1, m2)):
+                    st, cigar, seq, truth = m
+                    base_q = rng.choice([20, 30, 40])
+                    quals = [base_q] * len(seq)
+                    vq = []
+                    for i, _ in truth:
+                        qi = query_index(st, cigar, vs[i]["pos"])
+                        q = rng.choice([3, 11, 20, 25, 30, 35, 40, 60])
+                        if i == b:
+                            q = {"different": (40, 35)[k] if rng.random() < 0.5 else rng.choice([7, 12, 22, 33, 41]) + 17 * k,
+                                 "equal": 30, "first-zero": (0, 40)[k], "second-zero": (40, 0)[k], "second-higher": (10, 60)[k]}[qmode]
+                        if qi is not None:
+                            quals[qi] = q
+                            vq.append([i, q])
+                    recs.append({"name": qname, "rg": None if no_rg else rg_id, "qual": quals, "sample": s, "chrom": chrom, "start": st, "cigar": cigar,
+                                 "seq": seq, "mapq": 60, "truth": truth, "vq": vq, "tags": []})
+                r1, r2 = recs
+                if kind == "supp":
+                    strand = FLAG_REV if rng.random() < 0.5 else 0
+                    r1["flag"] = strand
+                    r2["flag"] = strand | FLAG_SUPP
+                    r2["tags"] = [["SA", f"{chrom},{r1['start'] + 1},+,50M,60,0;"]]
+                else:
+                    rev1 = rng.random() < 0.3
+                    r1["flag"] = FLAG_PAIRED | FLAG_PROPER | FLAG_R1 | (FLAG_REV if rev1 else 0) | (0 if rev1 else FLAG_MREV)
+                    r2["flag"] = FLAG_PAIRED | FLAG_PROPER | FLAG_R2 | (0 if rev1 else FLAG_REV) | (FLAG_MREV if rev1 else 0)
+                    r1["mate"] = {"chrom": chrom, "start": r2["start"]}
+                    r2["mate"] = {"chrom": chrom, "start": r1["start"]}
+                for r in recs:
+                    r["ovl"] = {"pair": n, "kind": kind, "qmode": qmode, "x": x}
+                case["alns"] += recs
+    case["overlapping_pairs"] = n
 
 
 def gen_region(rng, chrom, L, variants):
